@@ -210,3 +210,38 @@ func verifDial(ctx context.Context, network, address string, d net.Dialer) (net.
 }
 `)
 }
+
+func init() { generators = append(generators, genLogWriter) }
+
+// Access and error logs are written through httpserver.Logger: let the
+// simulator see each Write that reaches the log's output, so that an entry
+// that leaves in several pieces has a scheduling point between the pieces.
+func genLogWriter(repo, out string, m map[string]string) error {
+	if err := rewriteFile(repo, out, m, "logwriter", "caskethttp/httpserver/logger.go", []repl{{
+		old: "\tl.Logger = log.New(l.writer, \"\", 0)\n", new: "\tl.writer = verifWrapLogWriter(l.writer, l.Output)\n\tl.Logger = log.New(l.writer, \"\", 0)\n"}}); err != nil {
+		return err
+	}
+	if !applied["logwriter"] {
+		// (the hook variable below still exists, so the rigs compile; it is just never called)
+		delete(m, filepath.Join(repo, "caskethttp/httpserver/logger.go"))
+	}
+	return shim(repo, out, m, "caskethttp/httpserver/zz_verif_logwriter.go", `//go:build verif
+
+package httpserver
+
+import (
+	"io"
+	"os"
+)
+
+// VerifLogWriter, when set, wraps the output of every log that is not a standard stream.
+var VerifLogWriter func(w io.Writer, output string) io.Writer
+
+func verifWrapLogWriter(w io.Writer, output string) io.Writer {
+	if VerifLogWriter != nil && w != os.Stdout && w != os.Stderr {
+		return VerifLogWriter(w, output)
+	}
+	return w
+}
+`)
+}
